@@ -227,21 +227,29 @@ SpecT = Rec('AttrSpec', name=CodeT(16), form=CodeT(16), value=Int)
 DeclT = Obj('AbbrevDecl', decl=Rec(tag=CodeT(16), attr_spec=ListOf(SpecT)), _has_children=Bool, code=Nat)
 
 
+# a table with its map in view; the invariant is what AbbrevTable._parse_abbrev_table establishes (contracts/c10_abbrev.py)
+TableMapT = Obj('AbbrevTable', _inv=["forall(lambda c: not (c in self._abbrev_map) or self._abbrev_map[c].code == c)"],
+                _abbrev_map=DictOf(DeclT))
+
+
 @contract("elftools/dwarf/compileunit.py", "CompileUnit.get_abbrev_table", props=["C04"])
 class get_abbrev_table:
-    """(assumed) the abbreviation table of the unit (parsed once from .debug_abbrev at debug_abbrev_offset)"""
+    """(assumed) the abbreviation table of the unit (parsed once from .debug_abbrev at debug_abbrev_offset): the per-unit memo
+    of DWARFInfo.get_abbrev_table (under contract), whose tables AbbrevTable.__init__ builds (under contract)"""
     mode = 'assume'
-    returns = Obj('AbbrevTable')
+    returns = TableMapT
     may_raise = ["ELFParseError", "OverflowError", "DWARFError"]
 
 
 @contract("elftools/dwarf/abbrevtable.py", "AbbrevTable.get_abbrev", props=["C04"])
 class get_abbrev:
-    """(assumed) the declaration for a code: tag, child flag, attribute specifications in order (layout K2)"""
-    mode = 'assume'
+    """the declaration registered under the code -- tag, child flag, attribute specifications in order (layout K2) --
+    and KeyError exactly for a code the table does not declare; `_parse_abbrev_table` (contracts/c10_abbrev.py)
+    establishes that every declaration is registered under its own code"""
+    params = dict(self=TableMapT, code=Nat)
     returns = DeclT
-    ensures = ["result.code == code"]
-    may_raise = ["KeyError"]
+    ensures = ["result.code == code", "code in self._abbrev_map"]
+    raises = {"KeyError": "code not in self._abbrev_map"}
 
 
 for _q in ("AbbrevDecl.__getitem__", "AbbrevDecl.has_children"):
